@@ -12,6 +12,7 @@ from __future__ import annotations
 import ast
 
 from ..gates import gate_rule
+from ..sites import apply_fn, worker_fn
 from ..model import AnalysisError, FuncInfo, call_name, last_attr, names_in, unparse, walk_no_nested
 
 PROCESS = "codemodder.codemods.base_codemod.BaseCodemod._process_file"
@@ -40,7 +41,7 @@ def rule_rule_keyed(ctx, rep):
         "`results is None` or a non-empty findings list, and receives that list",
         min_instances=4,
     )
-    fn = ctx.prog.func(PROCESS)
+    fn = worker_fn(ctx)
     fa = ctx.flow(fn)
     r = ctx.resolver(fn)
     pp = fn.positional_params()
